@@ -112,11 +112,12 @@ META = {
               "keeps, for every sequence of connect calls in any order and orientation, a representation invariant against the abstract 'disjoint simple paths + rings' "
               "(C08.connects_refine_paths, connect_step); corollaries for chains of any length: path_iter enumerates the path (walk_enumerates_path), the walk from the far end "
               "is the exact mirror image (walk_mirror), a message is handed exactly once to the far-end owner at send time + sum of hop delays with last_gate/receiver set "
-              "(delivered_once_to_far_owner, arrival_time_eq_send_plus_sum_of_hop_delays, header_fields), connect symmetric/idempotent, degree <= 2. Tied to the code by "
+              "(delivered_once_to_far_owner, arrival_time_eq_send_plus_sum_of_hop_delays, header_fields), connect symmetric/idempotent, degree <= 2; a delayed send issued before the wiring is complete "
+              "travels the chain as wired at its send time (delayed_send_uses_wiring_at_send_time, forwardT over a time-indexed wiring). Tied to the code by "
               "replaying thousands of generated simulations built with the real builder API."),
         design_ref="DESIGN.md §5 C08",
         note=("Trusted: Lean kernel; the three standard axioms; the hand transcription Rust->Lean; harness/driver/orchestrator. Channels are represented by the delay of an idle "
-              "channel (C07 owns busy/queue/drop); activity of owners is time-indexed in the model and exercised by shut-down modules in the harness; sender_module_id is modelled (stamped at send, never rewritten)."),
+              "channel = latency + transmission time of the test message as computed by the code, cross-checked against 8*len/bitrate (C07 owns busy/queue/drop); activity of owners is time-indexed in the model and exercised by shut-down modules in the harness; sender_module_id is modelled (stamped at send, never rewritten)."),
         technique=_T),
     "C19": dict(
         text=("Lean 4 theorems about the model of topology.rs over the C08 gate model: from_modules yields one edge per endpoint gate, in order, labelled with the two end gates "
